@@ -95,6 +95,37 @@ def run(ck, m):
     ck.ob("R1", ss, covered == {"width", "height"}, f"set_size must reject non-positive integer dimensions (both width and height; found for {sorted(covered)})", stmt="set_size: rejects dimensions <= 0")
 
     # ---- R2 ----------------------------------------------------------------------------
+    # one rounding per derived dimension: where a helper's result is scaled (* or / by the pixel ratio ...) and then rounded, the helper returns the
+    # *unrounded* value - rounding twice adds the two errors (up to one pixel each) and the derived dimension can be a whole cell off
+    ROUNDERS = {"round", "int", "ceil", "floor", "math.ceil", "math.floor"}
+    n_scaled = 0
+    by_name4 = {}
+    for rel_, q_, fn_ in m.functions():
+        by_name4.setdefault(fn_.name, []).append((rel_, q_, fn_))
+    for rel_, q_, fn_ in m.functions():
+        if rel_ not in (CM, BL):
+            continue
+        for c in body_walk(fn_):
+            if not (isinstance(c, ast.Call) and (call_name(c) or "") in ROUNDERS and c.args and isinstance(c.args[0], ast.BinOp) and isinstance(c.args[0].op, (ast.Mult, ast.Div))):
+                continue
+            ops_, stack_ = [], [c.args[0]]
+            while stack_:
+                e_ = stack_.pop()
+                if isinstance(e_, ast.BinOp) and isinstance(e_.op, (ast.Mult, ast.Div)):
+                    stack_ += [e_.left, e_.right]
+                else:
+                    ops_.append(e_)
+            for o_ in ops_:
+                if isinstance(o_, ast.Call) and isinstance(o_.func, ast.Attribute) and norm(o_.func.value) in ("self", "cls"):
+                    for rel2, q2, f2 in by_name4.get(o_.func.attr, []):
+                        n_scaled += 1
+                        for r_ in body_walk(f2):
+                            if isinstance(r_, ast.Return) and r_.value is not None:
+                                tv_ = trace(f2, r_.value, use=r_)
+                                rounded = (isinstance(tv_, ast.Call) and (call_name(tv_) or "") in ROUNDERS) or (isinstance(tv_, ast.BinOp) and isinstance(tv_.op, ast.FloorDiv))
+                                ck.ob("R2", r_, not rounded, f"{q2} returns a rounded value (`{short(tv_, 50)}`) that {q_} scales and rounds again (`{short(c, 60)}`): the two rounding errors add up and the derived "
+                                      "dimension can differ from the exact proportional one by more than one unit", stmt=f"{q2}: unrounded where {q_} scales and rounds its result")
+    ck.expect(n_scaled >= 2, f"scaled-then-rounded helper results found: {n_scaled}")
     units = {}
     for rel, cname in ((BL, "BlockImage"), (CM, "GraphicsImage")):
         for meth, par, axis in (("_pixels_cols", "cols", 0), ("_pixels_lines", "lines", 1)):
@@ -179,6 +210,23 @@ def run(ck, m):
                 writers.add(f"{rel}::{getattr(st, '_q', '')}")
     allowed = {f"{CM}::BaseImage.size#2", f"{CM}::BaseImage.size", f"{CM}::BaseImage.set_size", f"{UW}::UrwidImage.render"}
     ck.ob("R3", base, writers <= allowed, f"`_size` is written in {sorted(writers - allowed)}; only the size setter, set_size and (documented) UrwidImage.render may", stmt="writers of _size")
+    # a size that is accepted is stored: every non-raising path through the size setter / set_size writes `_size` (directly or through set_size) -
+    # an "unchanged, nothing to do" shortcut compares with the *rendered* size and silently keeps a dynamic size dynamic
+    from tiv.cfg import CFG as _CFG4, fmt_path as _fmt4
+    for q4 in ("BaseImage.size", "BaseImage.set_size"):
+        f4 = m.find(CM, q4)
+        ck.expect(f4 is not None, f"{q4} not found")
+        if f4 is None:
+            continue
+        g4 = _CFG4(f4)
+        def _writes(n_):
+            if n_.ast is None or n_.kind != "stmt" or isinstance(n_.ast, (ast.If, ast.While, ast.For, ast.Try, ast.With)):
+                return False
+            return any(isinstance(t_, ast.Attribute) and t_.attr == "_size" for t_, _s in stores_in(n_.ast)) or any(
+                isinstance(c_, ast.Call) and isinstance(c_.func, ast.Attribute) and c_.func.attr == "set_size" for c_ in ast.walk(n_.ast))
+        p4 = g4.search([g4.entry], lambda n_: n_ is g4.exit_return, avoid=_writes, edge_ok=lambda a_, lab, d_: not lab.startswith(("e:", "p:")), from_succ=False)
+        ck.ob("R3", f4, p4 is None, f"{q4}: a size can be accepted (normal return) without being stored ({_fmt4(p4) if p4 else ''}): the previous size - possibly a dynamic one - stays in effect although the caller "
+              "fixed the size", stmt=f"{q4}: every accepted size is stored")
     from rules.common import rule_renderer_restores_size
     rule_renderer_restores_size(ck, m, "R3")
     reach = [fn for rel, q, fn in m.functions() if fn.name in ("_valid_size", "_render_image", "_get_render_data", "_get_render_size", "_pixels_cols", "_pixels_lines", "_width_height_px", "_get_minimal_render_size")]
